@@ -2692,7 +2692,12 @@ def _ill_conditioned_sides(elhs, erhs, pairs, nres: int = 1) -> bool:
         # cancellation such as exp(x) - 1 at x ~ 1e-13): "numerical precision" at this point is coarser than the tolerance
         p64 = [(a, [sp.Float(float(x)) for x in v] if isinstance(v, list) else
                 (sp.Float(float(v)) if sp.sympify(v).is_real else sp.sympify(complex(v)))) for a, v in pairs]
-        lf, rf = _float64(_subst(e.lhs, p64)), _float64(_subst(e.rhs, p64))
+        try:
+            lf, rf = _float64(_subst(e.lhs, p64)), _float64(_subst(e.rhs, p64))
+        except (ZeroDivisionError, OverflowError, ValueError):
+            # float64 cannot even evaluate the published formula here (1 - (1 - k**2)**(1/4) is exactly 0 for k ~ 1e-48, a
+            # division by it follows): the same cancellation, in its extreme form (seed sweep, VERIF_SEED=6, coplanar line)
+            return True
         return max(abs(lf - l0), abs(rf - r0)) > REL_TOL * scale / 10
     except Exception:  # noqa: BLE001
         return False
@@ -2829,8 +2834,23 @@ def _process_function_main(mod, fname, fr: FnResult, rng, npoints, demoted, gene
                                      f"generic execution out of reach and function not in c02_demoted.json: {reason}",
                                      c.qual))
         # ---- bounded stand-in for this equation
+        # A function that calls a numeric root finder with a fixed initial guess has the neighbourhood of physical values as
+        # its domain: at seeded random magnitudes (a temperature of 3 microkelvin, an ionisation energy of 0.1 J) `nsolve`
+        # returns a non-root for some points on the unchanged tree (seed sweep, VERIF_SEED=1000; observation, DESIGN 10.10b).
+        # Such functions are sampled around the arguments of their module's own test only.
         try:
-            b = bounded_function(c, law_attr, eq, assoc, rng, npoints)
+            solver = "nsolve" in inspect.getsource(c.undecorated)
+        except Exception:  # noqa: BLE001
+            solver = False
+        try:
+            if solver:
+                anch0 = anchors_for(mod, c)
+                b = (bounded_function(c, law_attr, eq, assoc, rng, npoints, anchors=anch0) if anch0 else
+                     {"accepted": 0, "refused": 0, "failures": [], "errors": ["numeric root finder and no anchor in the module's test"], "tries": 0})
+                if anch0:
+                    b["anchored"] = len(anch0)
+            else:
+                b = bounded_function(c, law_attr, eq, assoc, rng, npoints)
         except Exception as e:  # noqa: BLE001
             b = {"accepted": 0, "refused": 0, "failures": [], "errors": [f"{type(e).__name__}: {e}"], "tries": 0}
         if b["accepted"] == 0 and not b["failures"]:
